@@ -1236,6 +1236,12 @@ func GetSSRsFromQSR(qsr *QuerySegmentRequest, querySummary *summary.QuerySummary
 		verifhook.At("search.unrotated", "qid", qsr.qid, "segkey", qsr.segKey)
 		rawSearchSSRs = metadata.ExtractUnrotatedSSRFromSearchNode(qsr.sNode, qsr.queryRange,
 			qsr.indexInfo.GetQueryTables(), blocksToRawSearch, querySummary, qsr.qid)
+		if len(rawSearchSSRs) == 0 && !writer.IsSegKeyUnrotated(qsr.segKey) {
+			// The segment was rotated after the check above, so its unrotated info was already
+			// gone when we read it and nothing was found. It is in the rotated metadata now.
+			rawSearchSSRs = ExtractSSRFromSearchNode(qsr.sNode, blocksToRawSearch, qsr.queryRange,
+				qsr.indexInfo.GetQueryTables(), querySummary, qsr.qid, isQueryPersistent, qsr.pqid)
+		}
 	} else {
 		rawSearchSSRs = ExtractSSRFromSearchNode(qsr.sNode, blocksToRawSearch, qsr.queryRange,
 			qsr.indexInfo.GetQueryTables(), querySummary, qsr.qid, isQueryPersistent, qsr.pqid)
